@@ -94,10 +94,23 @@ def model(ctx):
     for d in DEVS:
         jobs.append(dict(module=MODULE, name="dev" + d, workers=1, expect_violation=True,
                          cfg=R.cfg_text(small, dev=[d], emit=False, invs=INVS, props=PROPS)))
+    big = None
+    if not ctx.quick():
+        # properties only (no edge emission, no replay) on a larger instance
+        big = {"MaxFrames": 3, "MaxReads": 3}
+        jobs.append(dict(module=MODULE, name="big", workers=6, heap="16g",
+                         cfg=R.cfg_text(big, emit=False, invs=INVS, props=PROPS)))
     res = R.tlc_many(ctx, jobs)
     ideal = res[0]
     if ideal.violated:
         raise vf.Infra("ideal Stream spec violates %s (specification error)" % ideal.violated)
+    if big:
+        b = res.pop()
+        if b.violated:
+            raise vf.Infra("ideal Stream spec violates %s on %s (specification error)" % (b.violated, big))
+        ctx.add("bigger_model_states", b.distinct)
+        ctx.add("bigger_model_transitions", b.generated)
+        ctx.cov["bigger_model_constants"] = big
     caught = {}
     for d, r in zip(DEVS, res[1:]):
         caught[d] = r.violated
